@@ -1224,6 +1224,17 @@ func (e *Env) call(n ECall) TVal {
 		}
 		a, b := e.tr(n.Args[0]), e.tr(n.Args[1])
 		return TVal{T: Term{app("mulR", a.T.S, b.T.S), SReal}}
+	case "intOfString":
+		// intOfString(s, base): the integer big.Int.SetString reads from s in that base (same symbol the executor uses)
+		if !argc(2) {
+			return TVal{}
+		}
+		{
+			a := e.tr(n.Args[0])
+			b := e.tr(n.Args[1])
+			vc.declareFun("str_int", []string{SStr, SInt}, SInt)
+			return TVal{T: Term{app("str_int", a.T.S, b.T.S), SInt}, Ty: types.Typ[types.Int]}
+		}
 	case "ratOfString":
 		// ratOfString(s): the rational big.Rat.SetString reads from s (same symbol the executor uses)
 		if !argc(1) {
